@@ -17,7 +17,7 @@ RULE = ('Cases: one input set per case and command; the command is run once with
         'times with thread counts from {1,2,3,4,6,8,16,32}, each process drawing fresh hash seeds, some with seeded jitter at the '
         'hook points (start of parallel work items, before locks), some pinned to one CPU with taskset.  Every run must succeed '
         'if the single-threaded one did and give: byte-identical output for map (aln, vcf), distance and lo with a reference (snps '
-        'fasta, snps vcf, pseudo-genomes, indel vcf); an identical table for build; an identical column multiset for align; a '
+        'fasta, snps vcf, pseudo-genomes, indel vcf); an identical table for build (from sequence files, and from 2..40 paired read samples with --min-count 2..3); an identical column multiset for align; a '
         'column multiset up to order and whole-column complement for reference-free lo (+ identical indel record set).  Where an '
         'absolute oracle exists (model table for build, C04 model for map, C14 model for distance, planted truth for lo) the '
         'single-threaded result is also judged, so "all runs equally wrong" is not a pass.  Sample counts '
@@ -28,7 +28,7 @@ RULE = ('Cases: one input set per case and command; the command is run once with
         'item; distinct = distinct (command, inputs).')
 ASSUMPTIONS = ['schedules are perturbed (thread counts, jitter, pinning, sanitizer slow-down), not enumerated',
                'the permitted freedom per command is the one stated in the property']
-CMDS = ['build', 'align-fasta', 'align-skf', 'map-fasta', 'map-skf', 'distance', 'lo-ref', 'lo-free', 'lo-ref-clustered', 'lo-free-clustered']
+CMDS = ['build', 'build-reads', 'align-fasta', 'align-skf', 'map-fasta', 'map-skf', 'distance', 'lo-ref', 'lo-free', 'lo-ref-clustered', 'lo-free-clustered']
 REQUIRED = {t: ['cmd:' + c for c in CMDS] + ['runs_compared', 'jitter_runs', 'pinned_runs', 'threads_above_cores',
                                             'parallel_build_split_used', 'tsan_runs'] for t in ('quick', 'thorough')}
 SAMPLE_COUNTS = [1, 2, 9, 10, 19, 20, 21, 39, 40, 45, 70, 79, 80, 150, 165]     # 70/150: third/fourth level of the recursive split
@@ -42,11 +42,13 @@ def builds(tier):
 def plan(tier, seed, rng, scale):
     descs = []
     for cmd in CMDS:
-        reps = {'build': 15, 'align-fasta': 4, 'align-skf': 3, 'map-fasta': 6, 'map-skf': 4, 'distance': 5}.get(cmd, 6)
+        reps = {'build': 15, 'build-reads': 3, 'align-fasta': 4, 'align-skf': 3, 'map-fasta': 6, 'map-skf': 4, 'distance': 5}.get(cmd, 6)
         reps = int(reps * (4 if tier == 'quick' else 40) * scale) or 1
         for i in range(reps):
             d = {'cmd': cmd, 'seed': rng.getrandbits(32), 'nruns': 5 if tier == 'quick' else 9}
-            if cmd in ('build', 'align-fasta', 'align-skf', 'map-fasta', 'map-skf'):
+            if cmd == 'build-reads':
+                d['ns'] = [12, 20, 10, 24, 2, 40][i % 6]
+            elif cmd in ('build', 'align-fasta', 'align-skf', 'map-fasta', 'map-skf'):
                 d['ns'] = SAMPLE_COUNTS[i % len(SAMPLE_COUNTS)] if cmd == 'build' else [10, 20, 40, 2, 21, 9, 39, 19, 45, 70, 80][i % 11]
                 if cmd.startswith('align') or cmd.startswith('map'):
                     d['ns'] = max(2, d['ns'])
@@ -122,7 +124,34 @@ def run_case(desc, ctx):
     outputs = []          # files (relative to a run directory) that make up the result
 
     # ------------------------------------------------------------------ inputs
-    if cmd in ('build', 'align-fasta', 'align-skf', 'map-fasta', 'map-skf', 'distance'):
+    if cmd == 'build-reads':
+        # paired read files per sample, counted with --min-count 2..3: every sample's filter state is its own
+        ns = desc.get('ns') or 12
+        anc, samples = gen_population(rng, ns, k, glen=rng.randint(5 * k, 9 * k))
+        minc = rng.choice([2, 2, 3])
+        lines = []
+        for i, recs in enumerate(samples):
+            rd = [[], []]
+            for g_ in recs:
+                for _c in range(minc + 1):
+                    a_ = 0
+                    while a_ < len(g_):
+                        L_ = rng.randint(2 * k, 3 * k)
+                        t_ = g_[a_:a_ + L_]
+                        if len(t_) >= k:
+                            rd[rng.randrange(2)].append(M.rc(t_) if rng.random() < 0.5 else t_)
+                        a_ += rng.randint(k, L_)
+            # stray reads seen once here and often in the neighbouring samples
+            other = samples[(i + 1) % ns][0]
+            rd[0].append(other[:3 * k])
+            rd[1].append(G.rseq(rng, 2 * k))
+            for j in (0, 1):
+                ctx.write('q%d_%d.fastq' % (i, j), ''.join('@r%d\n%s\n+\n%s\n' % (x, t_, 'I' * len(t_)) for x, t_ in enumerate(rd[j])))
+            lines.append('s%d\t%s\t%s\n' % (i, ctx.path('q%d_0.fastq' % i), ctx.path('q%d_1.fastq' % i)))
+        ctx.write('reads.list', ''.join(lines))
+        detail['ns'] = ns
+        detail['min_count'] = minc
+    elif cmd in ('build', 'align-fasta', 'align-skf', 'map-fasta', 'map-skf', 'distance'):
         ns = desc.get('ns') or rng.randint(2, 45)
         anc, samples = gen_population(rng, ns, k)
         files = [G.write_fa(ctx.path('s%d.fa' % i), recs) for i, recs in enumerate(samples)]
@@ -163,6 +192,8 @@ def run_case(desc, ctx):
         th = ['--threads', threads]
         if cmd == 'build':
             args = ['build', '-k', k, '-o', os.path.join(d, 'o'), *files, *th]
+        elif cmd == 'build-reads':
+            args = ['build', '-k', k, '-o', os.path.join(d, 'o'), '-f', ctx.path('reads.list'), '--min-count', minc, *th]
         elif cmd == 'align-fasta':
             args = ['align', *files, '-o', os.path.join(d, 'aln.fa'), '--min-freq', '0.5', *th]
         elif cmd == 'align-skf':
@@ -190,7 +221,7 @@ def run_case(desc, ctx):
             result['tsan'] = reports
         # comparable form of the result
         if p.returncode == 0:
-            if cmd == 'build':
+            if cmd in ('build', 'build-reads'):
                 hdr, T = G.nk(ctx, os.path.join(d, 'o.skf'))
                 result['val'] = (hdr.get('names'), T, hdr.get('k'), hdr.get('rc'))
             elif cmd.startswith('align'):
@@ -271,7 +302,7 @@ def run_case(desc, ctx):
             res.count('threads_above_cores')
         if r['schedule']:
             schedules.add(r['schedule'])
-        if cmd == 'build' and r.get('split'):
+        if cmd in ('build', 'build-reads') and r.get('split'):
             res.count('parallel_build_split_used')
         tsan_total += r.get('tsan', 0)
         what = '%s --threads %d%s%s' % (cmd, threads, ' jitter=%d' % jitter if jitter is not None else '', ' pinned' if pinned else '')
